@@ -5,7 +5,6 @@
 package c02
 
 import (
-	"sync"
 	"context"
 	"encoding/json"
 	"fmt"
@@ -13,6 +12,7 @@ import (
 	"path/filepath"
 	"sort"
 	"strings"
+	"sync"
 	"testing"
 	"time"
 
@@ -44,7 +44,7 @@ type pair struct {
 	ScalarArch map[string]bool
 	// SkipGoGlobals: environment bookkeeping of the Go-side model that is not a spec variable
 	SkipGoGlobals []string
-	Quick      bool
+	Quick         bool
 }
 
 func repo() string {
@@ -403,7 +403,30 @@ func TestCheck(t *testing.T) {
 				res.Violations = append(res.Violations, hres.Viol{Key: d.Name + "/deep-go-error-edge", What: fmt.Sprintf("the generated Go fails on %d steps from deep reachable states where TLC computed successors without error", dr.GoErrorEdges), Replay: replay{d.Name}})
 			}
 		}
-		res.Coverage = map[string]any{"deep_step_equality": deep, "states": states, "transitions": trans, "traces_validated_against_impl": trans, "samples": samples, "pairs": per, "not_covered": notCovered,
+		var extra []any
+		for _, x := range extraChecks() { // self-contained sub-checks with their own keys (procs_sys_test.go)
+			if only != "" && x.Name != only {
+				continue
+			}
+			if only == "" && !env.Thorough() && !x.Quick {
+				notCovered = append(notCovered, x.Name+" (thorough tier only)")
+				continue
+			}
+			v, ev, st, tr, err := x.Run(env)
+			if nc, ok := err.(errNotCompared); ok {
+				notCovered = append(notCovered, x.Name+" (not compared: "+nc.why+")")
+				allCompared = false
+				continue
+			}
+			if err != nil {
+				t.Fatalf("sub-check %s: %v", x.Name, err)
+			}
+			extra = append(extra, ev)
+			states += st
+			trans += tr
+			res.Violations = append(res.Violations, v...)
+		}
+		res.Coverage = map[string]any{"step_equality_sub_checks": extra, "deep_step_equality": deep, "states": states, "transitions": trans, "traces_validated_against_impl": trans, "samples": samples, "pairs": per, "not_covered": notCovered,
 			"exhaustive": allCompared, "explanation": "per pair: complete TLC state graph (-dump dot,actionlabels) == complete Go-side graph (every reachable spec state injected into the real generated critical sections; all choice resolutions); traces_validated = every edge of the model's graph is matched by an execution of the implementation"}
 		return res
 	})
